@@ -38,7 +38,7 @@ class State:
         self.vers, self.epoch = vers, epoch
 
 
-def build_history(rng, ncycles, cs, shipped_old, rotation, plan):
+def build_history(rng, ncycles, cs, shipped_old, rotation, plan, delegate=None):
     """plan: list of (versions, epoch_of_files, chain_upto) per cycle.
     rotation: list of role-key dicts per root version (index 0 = root v1)."""
     s = scen.Scen()
@@ -52,7 +52,7 @@ def build_history(rng, ncycles, cs, shipped_old, rotation, plan):
     for vers, epoch, upto in plan:
         roles = rotation[epoch]
         signers = {k: roles[k][0][:roles[k][1]] for k in ("snapshot", "targets", "timestamp")}
-        _, files = scen.simple_repo(s, cs=cs, versions=vers, root=roots[0], signers=signers)
+        _, files = scen.simple_repo(s, cs=cs, versions=vers, root=roots[0], signers=signers, delegate=delegate)
         for v in range(2, upto + 2):
             files["%d.root.json" % v] = {"doc": roots[v - 1]}
         shipped = roots[0] if shipped_old else roots[upto]
@@ -113,6 +113,13 @@ def oracle(chk, s, info, rotation, impl, desc):
                                 known_class="root_withheld" if withheld else None)
             succ.append((j, (root_v, (tsv, snv, tgv))))
     # no lock-out: a consistent state at least as new as everything served before must be accepted
+    # (a repository with a delegated role that bears a top-level role name is not a valid one: refused)
+    if desc.get("kind", "").startswith("role-named-") and desc["kind"] != "role-named-plain":
+        for j, x in enumerate(impl):
+            if x[0][0] == 0:
+                chk.violation("cycle %d: a repository with a delegated role named like a top-level role was "
+                              "loaded (its file replaces that role's file in the datastore)" % (j + 1), desc)
+        return
     seen = [0, 0, 0, 0]
     for j, inf in enumerate(info):
         v = inf["versions"]
@@ -163,6 +170,14 @@ def gen(chk):
         r2 = dict(d)
         r2.update(newrole)
         out.append(("root-withheld", False, True, [d, r2], [((5, 5, 5, 5), 1, 1), ((4, 4, 4, 4), 0, 0)]))
+    # a delegated role whose name is that of a top-level role (its file name in the datastore is then the name of
+    # a file the rollback checks rely on), with a control name; replay in the second cycle
+    for name in ("root", "timestamp", "snapshot", "targets", "plain"):
+        for cs in (False, True):
+            for rot in (ROT_NONE, [d, dict(d, timestamp=([4], 1))], [d, dict(d, snapshot=([5], 1))]):
+                e = len(rot) - 1
+                for lo in ((4, 5, 5, 5), (4, 4, 5, 5), (4, 4, 4, 4)):
+                    out.append(("role-named-%s" % name, cs, True, rot, [((5, 5, 5, 5), e, e), (lo, e, e)], name))
     n_random = 600 if chk.tier == "quick" else 12000
     for _ in range(n_random):
         rot = rotations(rng) if rng.random() < 0.6 else ROT_NONE
@@ -205,9 +220,9 @@ def run(chk):
         chk.broken(f, {"theorem_gate": f})
     C.ensure_harness()
     specs = gen(chk)
-    built = [build_history(chk.rng, len(p[4]), p[1], p[2], p[3], p[4]) for p in specs]
+    built = [build_history(chk.rng, len(p[4]), p[1], p[2], p[3], p[4], *p[5:6]) for p in specs]
     results = clientrun.run_scenarios(chk, [b[0] for b in built])
-    for (kind, cs, shipped_old, rot, plan), (s, info), (impl, model, mcase) in zip(specs, built, results):
+    for (kind, cs, shipped_old, rot, plan, *_), (s, info), (impl, model, mcase) in zip(specs, built, results):
         lower = any(any(plan[j][0][k] < plan[i][0][k] for k in range(4))
                     for i in range(len(plan)) for j in range(i + 1, len(plan)))
         chk.seen(mcase, lower)
